@@ -44,7 +44,7 @@ BINOPS = {"add": operator.add, "sub": operator.sub, "mul": operator.mul, "floord
           "mod": operator.mod, "pow": operator.pow, "lshift": operator.lshift, "rshift": operator.rshift,
           "lt": operator.lt, "le": operator.le, "eq": operator.eq, "ne": operator.ne, "ge": operator.ge, "gt": operator.gt,
           "and": operator.and_, "or": operator.or_, "xor": operator.xor,
-          "truediv": operator.truediv}          # float result: oracle only (IEEE division is the same in NumPy and XLA)
+          "truediv": operator.truediv}          # float result: oracle only, class T (XLA may multiply by a reciprocal)
 UNOPS = {"neg": operator.neg, "pos": operator.pos, "abs": operator.abs, "invert": operator.invert,
          "conj": lambda v: v.conj(), "real": lambda v: v.real, "imag": lambda v: v.imag}
 
@@ -265,7 +265,12 @@ def oracle_binop(case):
         return (f"Vector operator {case['f']} accepted operands of different structure", dict(op="binop", f=case["f"], what="accepted"))
     exp = flat_expect_binop(case)
     got = flat(r)
-    if got.shape != exp.shape or not np.array_equal(got, exp):
+    if case["f"] == "truediv":
+        # class T: XLA strength-reduces a division by a constant to a multiplication by the reciprocal (1 ulp off NumPy)
+        same = got.shape == exp.shape and np.allclose(got, exp, rtol=1e-13, atol=0)
+    else:
+        same = got.shape == exp.shape and np.array_equal(got, exp)
+    if not same:
         return (f"Vector operator {case['f']}: result differs from the operation on the concatenated flat arrays",
                 dict(op="binop", f=case["f"], what="value"))
     return None
